@@ -76,28 +76,52 @@ struct LegRun {
 // ------------------------------------------------------------------------------------------
 // leg "gen"
 fn leg_gen(out: &Path, cfg: &Config, k: usize, progs: &[crate::ast::Program], vectors: &[Vec<Vec<Val>>]) -> Result<Results, String> {
-    let mut rejected = vec![];
     let dir = out.join("src");
-    let (compiled, alive) = crate::compile_programs(&dir, &format!("c05_gen_cfg{k}"), progs, cfg, &mut rejected)?;
-    if !rejected.is_empty() {
-        return Err(format!(
-            "configuration {} rejects {} generated program(s): {}",
-            cfg.name(),
-            rejected.len(),
-            rejected[0].1
-        ));
-    }
     let mut res = Results::new();
-    for pi in alive {
-        let p = &progs[pi];
-        let fname = format!("::{}", p.fn_name(p.entry()));
-        for args in &vectors[pi] {
-            let mut cells = vec![];
-            for a in args {
-                a.flatten(&mut cells);
+    // crates of 50 programs: running a function costs time proportional to the size of the
+    // compiled crate, and the legacy gas solver gives up on very large crates
+    for (ci, chunk) in progs.chunks(50).enumerate() {
+        let mut rejected = vec![];
+        let (compiled, alive) =
+            crate::compile_programs(&dir, &format!("c05_gen_cfg{k}_{ci}"), chunk, cfg, &mut rejected)?;
+        let solver_only = cfg.gas == Some(Solver::NonLinear)
+            && rejected.iter().all(|(_, m)| m.contains("FailedGasCalculation"));
+        if !rejected.is_empty() && !solver_only {
+            return Err(format!(
+                "configuration {} rejects {} generated program(s): {}",
+                cfg.name(),
+                rejected.len(),
+                rejected[0].1
+            ));
+        }
+        if let Some((src, msg)) = rejected.first() {
+            // the legacy (non-linear) gas solver gives up on some valid programs: not a result.
+            // Keep one such program for inspection.
+            let _ = std::fs::write(out.join("nonlinear_solver_failed_example.cairo"), format!("// {msg}\n{src}"));
+        }
+        for (pi, p) in chunk.iter().enumerate() {
+            if !alive.contains(&pi) {
+                let fname = format!("::{}", p.fn_name(p.entry()));
+                for args in &vectors[ci * 50 + pi] {
+                    let mut cells = vec![];
+                    for a in args {
+                        a.flatten(&mut cells);
+                    }
+                    res.insert((fname.clone(), cells), Obs::Error("FailedGasCalculation (non-linear solver)".into()));
+                }
             }
-            let obs = run::run(&compiled, &fname, &cells);
-            res.insert((fname.clone(), cells), obs);
+        }
+        for pi in alive {
+            let p = &chunk[pi];
+            let fname = format!("::{}", p.fn_name(p.entry()));
+            for args in &vectors[ci * 50 + pi] {
+                let mut cells = vec![];
+                for a in args {
+                    a.flatten(&mut cells);
+                }
+                let obs = run::run(&compiled, &fname, &cells);
+                res.insert((fname.clone(), cells), obs);
+            }
         }
     }
     Ok(res)
@@ -257,6 +281,9 @@ fn gas_observing(name: &str) -> bool {
 }
 
 fn leg_tests(cfg: &Config, path: &str, prefix: &str, starknet: bool) -> Result<Results, String> {
+    // everything the run needs is copied out of the database, which is dropped before the tests
+    // run (the core library's database is several GB)
+    let (sierra_program, function_set_costs, contracts_info, named_tests) = {
     let mut db = build_test_db(cfg, starknet);
     let inputs = setup_project(&mut db, Path::new(path)).map_err(|e| format!("setup_project({path}): {e:?}"))?;
     let mut diag = String::new();
@@ -287,33 +314,33 @@ fn leg_tests(cfg: &Config, path: &str, prefix: &str, starknet: bool) -> Result<R
         Ok(c) => c,
         Err(e) => return Err(format!("{e}\n{}", diag.chars().take(1500).collect::<String>())),
     };
+    (
+        compiled.sierra_program.program.clone(),
+        compiled.metadata.function_set_costs.clone(),
+        compiled.metadata.contracts_info.clone(),
+        compiled.metadata.named_tests.clone(),
+    )
+    };
     let meta = cfg.gas.map(|s| MetadataComputationConfig {
-        function_set_costs: compiled.metadata.function_set_costs.clone(),
+        function_set_costs: function_set_costs.clone(),
         linear_gas_solver: s == Solver::Linear,
         linear_ap_change_solver: s == Solver::Linear,
         skip_non_linear_solver_comparisons: s == Solver::NonLinear,
         compute_runtime_costs: false,
     });
     let runner = vcommon::catch(std::panic::AssertUnwindSafe(|| {
-        SierraCasmRunner::new(
-            compiled.sierra_program.program.clone(),
-            meta,
-            compiled.metadata.contracts_info.clone(),
-            None,
-        )
+        SierraCasmRunner::new(sierra_program.clone(), meta, contracts_info.clone(), None)
     }))
     .map_err(|e| format!("runner set-up panicked under {}: {e} at {}", cfg.name(), vcommon::last_panic_location()))?
     .map_err(|e| format!("runner under {}: {e:?}", cfg.name()))?;
     let mut res = Results::new();
-    let tm = type_map(&compiled.sierra_program.program);
-    for (name, test) in &compiled.metadata.named_tests {
+    let tm = type_map(&sierra_program);
+    for (name, test) in &named_tests {
         if test.ignored || gas_observing(name) {
             continue;
         }
         // a test may return a value: only pointer-free results are comparable between configurations
-        let comparable = compiled
-            .sierra_program
-            .program
+        let comparable = sierra_program
             .funcs
             .iter()
             .find(|f| f.id.debug_name.as_ref().map(|n| n.as_str() == name.as_str()).unwrap_or(false))
@@ -438,7 +465,7 @@ fn compare(leg: &str, runs: &[LegRun], failures: &mut Vec<serde_json::Value>, st
                     };
                     compared += 1;
                     // a run that hit the step limit under one configuration is inconclusive
-                    let lim = |o: &Obs| matches!(o, Obs::Error(e) if e.contains("RunResources") || e.contains("UnfinishedExecution") || e.contains("steps"));
+                    let lim = |o: &Obs| matches!(o, Obs::Error(e) if e.contains("RunResources") || e.contains("UnfinishedExecution") || e.contains("steps") || e.contains("FailedGasCalculation (non-linear solver)"));
                     if lim(a) || lim(b) {
                         inconclusive += 1;
                         continue;
@@ -486,7 +513,7 @@ fn compare(leg: &str, runs: &[LegRun], failures: &mut Vec<serde_json::Value>, st
     stats.insert(
         leg.to_string(),
         serde_json::json!({
-            "items": items, "comparisons": compared, "inconclusive_step_limit": inconclusive,
+            "items": items, "comparisons": compared, "inconclusive_step_limit_or_solver": inconclusive,
             "configs": runs.iter().map(|r| serde_json::json!({"config": r.cfg.name(), "secs": r.secs,
                  "items": r.results.as_ref().map(|x| x.len()).unwrap_or(0),
                  "successes": r.results.as_ref().map(|x| x.values().filter(|o| matches!(o, Obs::Success(_))).count()).unwrap_or(0),
@@ -533,7 +560,8 @@ pub fn main_c05(out: &Path, tier: &str, seed: u64) {
                     if let Some(obs) = res.get(&(fname.clone(), cells.clone())) {
                         ref_checked += 1;
                         let e = it.run(p.entry(), args);
-                        if !crate::agrees(&e, obs) && !matches!(e, Outcome::Stuck(_)) {
+                        let skipped = matches!(obs, Obs::Error(m) if m.contains("FailedGasCalculation (non-linear solver)"));
+                        if !skipped && !crate::agrees(&e, obs) && !matches!(e, Outcome::Stuck(_)) {
                             ref_bad += 1;
                             if ref_bad <= 3 {
                                 failures.push(serde_json::json!({
@@ -583,8 +611,9 @@ pub fn main_c05(out: &Path, tier: &str, seed: u64) {
         let core_cfgs = vec![
             c(OptKind::Default, false, None, Some(Solver::Linear)),
             c(OptKind::Disabled, false, None, Some(Solver::Linear)),
-            c(OptKind::Small(100_000), true, Some(2), Some(Solver::Linear)),
-            c(OptKind::Avoid, false, None, Some(Solver::NonLinear)),
+            // (no "inline everything" here: on the core library it needs tens of GB)
+            c(OptKind::Avoid, true, Some(2), Some(Solver::Linear)),
+            c(OptKind::Default, false, None, Some(Solver::NonLinear)),
         ];
         let c_runs = run_leg_n(&core_cfgs, 2, |cfg, _| leg_tests(cfg, "/repo/corelib", "corelib:", false));
         compare("corelib_tests", &c_runs, &mut failures, &mut stats);
